@@ -863,3 +863,75 @@ Lemma register_clock L p t m : l_clock (fst (step L (LRegister p t m))) = l_cloc
 Proof.
   destruct (register_step L p t m) as [->|(D & evs & out & _ & _ & ->)]; repeat split.
 Qed.
+
+(* ---------- concluded entries are final; a concluded ledger channel has its whole tree concluded ---------- *)
+Definition tree_concluded (D : disputes) (root : bytes) : Prop :=
+  forall d, bfind D root = Some d -> d_phase d = DConcluded ->
+    forall l, In l (al_locked (st_alloc (d_state d))) ->
+      exists dl, bfind D (sa_id l) = Some dl /\ d_phase dl = DConcluded.
+
+Lemma register_single_keeps_concluded now D p t D' evs id d :
+  register_single now D p t = ROk (D', evs) -> bfind D id = Some d -> d_phase d = DConcluded ->
+  bfind D' id = Some d.
+Proof.
+  intros Hs Hf Hc.
+  destruct (register_single_cases _ _ _ _ _ _ Hs) as [_ [(-> & _)|(_ & to & -> & _ & Hto)]]; [exact Hf|].
+  rewrite bfind_bput. destruct (bytes_eqb id (st_id (tx_st t))) eqn:Ei; [|exact Hf].
+  apply bytes_eqb_eq in Ei. subst id. exfalso.
+  destruct Hto as [(Hn & _)|(d0 & E0 & _ & _ & Hp & _)]; [congruence|].
+  rewrite Hf in E0. injection E0 as <-. congruence.
+Qed.
+
+Lemma register_single_new_phase now D p t D' evs id d' :
+  register_single now D p t = ROk (D', evs) -> bfind D' id = Some d' -> d_phase d' = DConcluded ->
+  bfind D id = Some d'.
+Proof.
+  intros Hs Hf Hc.
+  destruct (register_single_cases _ _ _ _ _ _ Hs) as [_ [(-> & _)|(_ & to & -> & _ & Hto)]]; [exact Hf|].
+  rewrite bfind_bput in Hf. destruct (bytes_eqb id (st_id (tx_st t))); [|exact Hf].
+  injection Hf as <-. discriminate.
+Qed.
+
+Lemma tree_concluded_register now m root fuel D p t D' evs out :
+  tree_concluded D root -> register_rec fuel now D p t m = ROk (D', evs, out) -> tree_concluded D' root.
+Proof.
+  intros Ht Hr.
+  apply (register_rec_preserves now m (fun D => tree_concluded D root) (fun _ _ => True))
+    with (fuel := fuel) (D := D) (p := p) (t := t) (evs := evs) (out := out); auto.
+  clear. intros D p t D' evs _ Ht Hs d' Hf Hc l Hl.
+  pose proof (register_single_new_phase _ _ _ _ _ _ _ _ Hs Hf Hc) as Hf0.
+  destruct (Ht _ Hf0 Hc _ Hl) as (dl & Hdl & Hcl). exists dl. split; [|exact Hcl].
+  eapply register_single_keeps_concluded; eauto.
+Qed.
+
+Lemma find_st_id m id s : find_st m id = Some s -> st_id s = id.
+Proof. unfold find_st. intro H. apply find_some in H as [_ H]. apply bytes_eqb_eq in H. exact H. Qed.
+
+Lemma tree_concluded_step L o root :
+  tree_concluded (l_disp L) root ->
+  (forall p s m, o = LConclude p s m -> lp_id p = root) ->
+  (forall p t, o = LConcludeFinal p t -> lp_id p = root) ->
+  (forall p a b c d, o <> LProgress p a b c d) ->
+  tree_concluded (l_disp (fst (step L o))) root.
+Proof.
+  intros Ht Hc1 Hc2 Np. destruct o.
+  - destruct (deposit_disp L p assets idx from amts) as [-> _]. exact Ht.
+  - destruct (register_step L p t subs) as [->|(D & evs & out & Hr & _ & ->)]; [exact Ht|].
+    cbn [with_disp l_disp]. eapply tree_concluded_register; eauto.
+  - exfalso. eapply Np. reflexivity.
+  - destruct (conclude_step' L p s subs) as [->|[evs E]]; [exact Ht|].
+    destruct (conclude_step _ _ _ _ _ _ E) as (_ & Hid & D & out & Hc & -> & _).
+    destruct (conclude_rec_spec _ _ _ _ _ _ _ _ Hc) as (U & _ & K & F & _).
+    specialize (Hc1 _ _ _ eq_refl). rewrite Hc1 in Hid.
+    intros d' Hf Hp l Hl. pose proof (U root) as Ur. rewrite Hf in Ur. destruct Ur as (d & Ed & _ & S1 & _ & Ph).
+    destruct K as (dk & Ek & Sk & _). rewrite Hid, Hf in Ek. injection Ek as <-.
+    (* the root entry is concluded on s: every locked sub-channel was concluded in this call or before *)
+    rewrite Sk in Hl. rewrite Forall_forall in F. destruct (F _ Hl) as (sub & Hfs & _ & (dl & Edl & _ & Pdl)).
+    rewrite (find_st_id _ _ _ Hfs) in Edl. eauto.
+  - destruct (concludefinal_step L p t) as [->|H]; [exact Ht|]. cbv zeta in H.
+    destruct H as (_ & _ & _ & Hl0 & _ & Hnc & ->). cbn [l_disp]. specialize (Hc2 _ _ eq_refl). rewrite Hc2 in *.
+    intros d' Hf Hp l Hl. rewrite bfind_bput, bytes_eqb_refl in Hf. injection Hf as <-.
+    cbn [d_state] in Hl. rewrite Hl0 in Hl. destruct Hl.
+  - destruct (withdraw_disp L p idx signer to) as [-> _]. exact Ht.
+  - exact Ht.
+Qed.
